@@ -69,7 +69,7 @@ def clause_ab(facts, rep):
     # the decimal exponent k and the binary shift h are bound from their uses (the argument of Pow10CeilSig(-k), the
     # shift amount of the RoundToOdd operands) and the code that computes them is *evaluated* (sv/minterp.py) for
     # every binary exponent q a double can have, for a regular and an irregular (exact power of two) significand
-    from ..minterp import Interp, Unsupported
+    from ..minterp import Interp, Unsupported, UndefinedBehaviour
     kid = hid = None
     for bid, i, st, e in fd.walk():
         if e.get('k') == 'call' and e.get('cname') == 'Pow10CeilSig' and e.get('args'):
@@ -95,7 +95,11 @@ def clause_ab(facts, rep):
         for q in qs:
             for irregular in (0, 1):
                 env = {ps['q']: q, ps['c']: 1 << 52, ps['rsig']: 0 if irregular else 1, ps['rexp']: 2}
-                _, env2, _, reached = it.run(env, {}, stop_at=stop)
+                try:
+                    _, env2, _, reached = it.run(env, {}, stop_at=stop)
+                except UndefinedBehaviour as ex:
+                    bad.append(('undefined behaviour: %s' % ex, q, None, None))
+                    continue
                 if not reached or kid not in env2 or hid not in env2:
                     raise Unsupported('k / h not computed before the table lookup')
                 k, h = env2[kid], env2[hid]
